@@ -257,16 +257,17 @@ class Trimesh(Geometry3D):
         if self.is_empty:
             return self
 
+        # if we're cleaning remove duplicate and degenerate faces
+        # this removes and reverses faces so it has to happen with the
+        # cache unlocked or values computed earlier would be used stale
+        if validate:
+            # get a mask with only unique and non-degenerate faces
+            mask = self.unique_faces() & self.nondegenerate_faces()
+            self.update_faces(mask)
+            self.fix_normals()
+
         # avoid clearing the cache during operations
         with self._cache:
-            # if we're cleaning remove duplicate
-            # and degenerate faces
-            if validate:
-                # get a mask with only unique and non-degenerate faces
-                mask = self.unique_faces() & self.nondegenerate_faces()
-                self.update_faces(mask)
-                self.fix_normals()
-
             # since none of our process operations moved vertices or faces
             # we can keep face and vertex normals in the cache without recomputing
             # if faces or vertices have been removed, normals are validated before
